@@ -19,13 +19,22 @@ Mk(p, q) == \* q # 0
   LET s == IF q < 0 THEN -1 ELSE 1  g == Gcd(p, q) IN << (s * p) \div g, (s * q) \div g >>
 IsFin(x) == x[2] > 0
 IsInt(x) == x[2] = 1
+\* The SDK's tolerances are the FLOATS 1e-6 and 1e-7, which are not dyadic-small; the trace names them by tokens
+\*   <<1,-6>> = 1e-6, <<-1,-6>> = -1e-6, <<1,-7>> = 1e-7, <<-1,-7>> = -1e-7   (exactly those f64 values)
+\* so that behaviour exactly AT the tolerance can be recorded and judged. Tokens only pass through the
+\* identities x+0, x*1, x*(-1) and the tolerance comparisons; any other arithmetic on them yields Unrep.
+IsTol(x) == x[2] \in {-6, -7} /\ x[1] \in {1, -1}
 \* arithmetic is total: an operand that is not a finite number (infinity, NaN, Err, Unrep) yields <<0,-2>> (Unrep)
-RAdd(a, b) == IF a[2] <= 0 \/ b[2] <= 0 THEN <<0, -2>>
+RAdd(a, b) == IF IsTol(a) /\ b = <<0, 1>> THEN a ELSE IF IsTol(b) /\ a = <<0, 1>> THEN b
+              ELSE IF a[2] <= 0 \/ b[2] <= 0 THEN <<0, -2>>
               ELSE IF a[2] = 1 /\ b[2] = 1 THEN <<a[1] + b[1], 1>>
               ELSE LET l == Lcm(a[2], b[2]) IN Mk(a[1] * (l \div a[2]) + b[1] * (l \div b[2]), l)
 RNeg(a) == <<-a[1], a[2]>>
 RSub(a, b) == RAdd(a, RNeg(b))
-RMul(a, b) == IF a[2] <= 0 \/ b[2] <= 0 THEN <<0, -2>>
+RMul(a, b) == IF IsTol(a) /\ b \in {<<1, 1>>, <<-1, 1>>} THEN <<a[1] * b[1], a[2]>>
+              ELSE IF IsTol(b) /\ a \in {<<1, 1>>, <<-1, 1>>} THEN <<a[1] * b[1], b[2]>>
+              ELSE IF (IsTol(a) /\ b = <<0, 1>>) \/ (IsTol(b) /\ a = <<0, 1>>) THEN <<0, 1>>
+              ELSE IF a[2] <= 0 \/ b[2] <= 0 THEN <<0, -2>>
               ELSE IF a[2] = 1 /\ b[2] = 1 THEN <<a[1] * b[1], 1>>
               ELSE LET g1 == Gcd(a[1], b[2]) g2 == Gcd(b[1], a[2])
                    IN Mk((a[1] \div g1) * (b[1] \div g2), (a[2] \div g2) * (b[2] \div g1))
@@ -42,8 +51,12 @@ XLeq(a, b) == IF a[2] = 0 /\ b[2] = 0 THEN a[1] <= b[1] ELSE a[1] * b[2] <= b[1]
 XLess(a, b) == a # b /\ XLeq(a, b)
 \* Comparisons with the SDK's tolerances 10^-6 / 10^-7, written so that TLC's 32-bit integers cannot
 \* overflow for any finite a = <<p,q>> with 0 < q < 2^31:  p >= 2148 already implies p*10^6 > q.
-RLessE6(a) == IF a[1] <= 0 THEN TRUE ELSE IF a[1] >= 2148 THEN FALSE ELSE a[1] * 1000000 < a[2]          \* a <  10^-6
-RLeqE7(a)  == IF a[1] <= 0 THEN TRUE ELSE IF a[1] >= 215  THEN FALSE ELSE a[1] * 10000000 <= a[2]        \* a <= 10^-7
+RLessE6(a) == IF a[2] = -6 THEN a[1] < 0                  \* 1e-6 < 1e-6 is false, -1e-6 < 1e-6
+              ELSE IF a[2] = -7 THEN TRUE                 \* +-1e-7 < 1e-6
+              ELSE IF a[1] <= 0 THEN TRUE ELSE IF a[1] >= 2148 THEN FALSE ELSE a[1] * 1000000 < a[2]          \* a <  10^-6
+RLeqE7(a)  == IF a[2] = -7 THEN TRUE                      \* +-1e-7 <= 1e-7
+              ELSE IF a[2] = -6 THEN a[1] < 0             \* 1e-6 <= 1e-7 is false
+              ELSE IF a[1] <= 0 THEN TRUE ELSE IF a[1] >= 215  THEN FALSE ELSE a[1] * 10000000 <= a[2]        \* a <= 10^-7
 Unrep == <<0, -2>>  \* harness marker: a finite float that is not representable in the trace's number domain
 IsNum(x) == x[2] >= 0 /\ x # NaN                                  \* a proper extended rational (not NaN / Err / Unrep)
 RMin(a, b) == IF RLeq(a, b) THEN a ELSE b
